@@ -184,7 +184,12 @@ def run_c20(case: Dict[str, Any]) -> Dict[str, Any]:
     res = "other"
     obj: Any = None
     try:
-        if entry == "direct":
+        if case.get("wrap"):
+            # the pickle-flavoured stand-in object claiming a module / class name / args (what a pickled result carries)
+            from taskiq.serialization import _UnpickleableExceptionWrapper
+            w = _UnpickleableExceptionWrapper(payload["exc_module"] or "builtins", payload["exc_type"], tuple(payload["exc_message"]), "text")
+            obj = TaskiqResult.model_validate({"is_err": True, "return_value": None, "execution_time": 0.1, "error": w}).error
+        elif entry == "direct":
             from taskiq.serialization import ExceptionRepr
             obj = exception_to_python(ExceptionRepr.model_validate(payload))
         elif entry == "validate":
@@ -229,7 +234,7 @@ def run_c20(case: Dict[str, Any]) -> Dict[str, Any]:
             second = "raised:" + type(exc).__name__
         sys.modules.pop("verif_lazy_mod", None)
     return {"e": "load", "p": norm_payload(case["p"]), "entry": entry, "res": res, "cls_kind": cls_kind, "name_ok": bool(name_ok),
-            "called": len(CALLS), "imported": len(imported) + (1 if lazy else 0), "second": second}
+            "called": len(CALLS), "imported": len(imported) + (1 if lazy else 0), "second": second, "wrap": bool(case.get("wrap"))}
 
 
 # ----------------------------------------------------------------------------- C19: round trips
